@@ -190,6 +190,11 @@ func (ws *WALStorage) Append(entries []myraft.Entry) error {
 	if len(infos) != 1 {
 		return fmt.Errorf("raftstore: expected single entry record, got %d", len(infos))
 	}
+	// Raft requires the record to be durable before the peer acts on it (sends messages) and
+	// before the manifest pointer that refers to it is logged; AppendRecords only buffers.
+	if err := ws.wal.Sync(); err != nil {
+		return err
+	}
 	if err := ws.mem.Append(entries); err != nil {
 		return err
 	}
@@ -226,6 +231,11 @@ func (ws *WALStorage) ApplySnapshot(snap myraft.Snapshot) error {
 	}
 	if len(infos) != 1 {
 		return fmt.Errorf("raftstore: expected single snapshot record, got %d", len(infos))
+	}
+	// Raft requires the record to be durable before the peer acts on it (sends messages) and
+	// before the manifest pointer that refers to it is logged; AppendRecords only buffers.
+	if err := ws.wal.Sync(); err != nil {
+		return err
 	}
 	if err := ws.mem.ApplySnapshot(snap); err != nil {
 		return err
@@ -297,6 +307,11 @@ func (ws *WALStorage) SetHardState(st myraft.HardState) error {
 	}
 	if len(infos) != 1 {
 		return fmt.Errorf("raftstore: expected single hard state record, got %d", len(infos))
+	}
+	// Raft requires the record to be durable before the peer acts on it (sends messages) and
+	// before the manifest pointer that refers to it is logged; AppendRecords only buffers.
+	if err := ws.wal.Sync(); err != nil {
+		return err
 	}
 	if err := ws.mem.SetHardState(st); err != nil {
 		return err
